@@ -2,6 +2,7 @@ import PikaVerif.Props.C07
 import PikaVerif.Lemmas.CVFin
 import PikaVerif.Lemmas.CVCov
 import PikaVerif.Lemmas.CVSolo
+import PikaVerif.Lemmas.CVCnt
 /-!
 # C07t — termination / bounded progress of the condition-variable operations (follow-up of C07)
 
@@ -226,6 +227,34 @@ theorem C07t_pred_covered (n : Nat) (f : Bool) (prog : Nat → List Op) (log : L
   · exact Or.inr (Or.inl hb)
   · exact Or.inr (Or.inr hr)
 
+/-- **Position of a linked waiter.**  `z t` = size of the queue right after `t`'s last `cv.enq` (its
+    position, from 1), `k t` = number of pops (`cv.pop` of a `notify_one`, `cv.popall` of a
+    `notify_all`) since then (ghost state folded over the log, `Lemmas/CVCnt.lean`).  A waiter that
+    is still linked sits at an index below `z t - k t`; in particular fewer than `z t` pops have
+    happened since it enqueued: **after as many successful `notify_one` calls as waiters were linked
+    when `t` enqueued (itself included), `t` has been popped** (or has removed itself). -/
+theorem C07t_linked_position (n : Nat) (f : Bool) (log : List Ev) (s : St) (t : Nat)
+    (h : runLog step (init n f) log = some s) (hq : t ∈ s.queue) :
+    s.queue.idxOf t + (obsKLog gk0 log).k t < (obsKLog gk0 log).z t := by
+  have hc := cnt_of_runLog log _ s gk0 (inv_init n f) (by intro u hu; simp [init] at hu) h
+  exact hc t hq
+
+/-- **Covering by `notify_one` calls, in log order.**  If for every thread that is parked at the end
+    of a maximal run at least as many pops happened since its last `cv.enq` as entries were linked
+    at that moment (`z t ≤ k t`), no thread is parked: every wait has returned. -/
+theorem C07t_covered_by_notify_one (n : Nat) (f : Bool) (prog : Nat → List Op) (log : List Ev)
+    (p : PSt) (h : runLog pstep (pinit n f prog) log = some p) (hs : PStuck p)
+    (hcov : ∀ t, t < n → p.s.pc t = .susp false → (obsKLog gk0 log).z t ≤ (obsKLog gk0 log).k t) :
+    ∀ t, t < n → (p.s.pc t = .fin ∧ p.prog t = []) ∨ BlockedOnUserLock p.s t ∨ Refused p t := by
+  intro t ht
+  rcases C07t_final_state n f prog log p h hs t ht with hf | hp | hb | hr
+  · exact Or.inl hf
+  · have h1 := hcov t ht hp.1
+    have h2 := C07t_linked_position n f log p.s t (runLog_pstep_step log _ p h) hp.2.2.2.1
+    omega
+  · exact Or.inr (Or.inl hb)
+  · exact Or.inr (Or.inr hr)
+
 /-! ## Non-vacuity and the classic lost wake-up -/
 
 /-- the classic shape without a predicate: thread 0 `lock; wait; unlock`, thread 1
@@ -281,6 +310,12 @@ example : ∃ p, runLog pstep (pinit 2 false lostProg) goodRun = some p ∧ PStu
   left
   revert t
   decide
+
+/-- the counting ghost on the two runs: in `lostRun` the waiter enqueued at position 1 and no pop
+    followed (`k = 0 < z = 1`); in `goodRun` one pop followed (`z = 1 ≤ k = 1`, hypothesis of
+    `C07t_covered_by_notify_one`) -/
+example : (obsKLog gk0 lostRun).z 0 = 1 ∧ (obsKLog gk0 lostRun).k 0 = 0 ∧
+    (obsKLog gk0 goodRun).z 0 = 1 ∧ (obsKLog gk0 goodRun).k 0 = 1 := by decide
 
 /-- the predicate shape: thread 0 `lock; wait(pred); unlock`, thread 1
     `lock; flag = true; notify_all; unlock` -/
